@@ -789,6 +789,10 @@ func (r *relayRig) addReq(i int) {
 		q.path = "/ap%C4%B0/users"
 	} else if pick(10) {
 		q.path = "/API" + q.path[4:] // the proxied path matches without regard to letter case, and so does its 'without' prefix
+	} else if pick(10) {
+		// the prefix spelled with an escape it does not need (old encoders escape freely): the same
+		// resource, and the same prefix to cut
+		q.path = []string{"/%61pi", "/ap%69", "/%41PI"}[st.Draw(3)] + q.path[4:]
 	}
 	if r.pathRule && pick(20) {
 		// the decoded path contains a line feed: as a header value it is refused by the transport
@@ -1144,8 +1148,8 @@ func (r *relayRig) judge() {
 				c.Violate("C04/method-changed", "", "request %d: client sent %s, backend received %s", q.id, q.method, g.method)
 			}
 			wantPath := q.path
-			if r.without != "" && len(q.path) >= len(r.without) && strings.EqualFold(q.path[:len(r.without)], r.without) {
-				wantPath = q.path[len(r.without):]
+			if rest, ok := cutEscapedPrefix(q.path, r.without); r.without != "" && ok {
+				wantPath = rest
 			}
 			wantTarget := joinSlash(r.base, wantPath)
 			if wantTarget == "" {
@@ -1368,6 +1372,28 @@ func (r *relayRig) judge() {
 		}
 		c.Probe("response-compared")
 	}
+}
+
+// cutEscapedPrefix: raw (a path as the client spelled it) without the piece that decodes to
+// prefix, letter case disregarded; false when raw does not begin with such a piece.
+func cutEscapedPrefix(raw, prefix string) (string, bool) {
+	var dec []byte
+	i := 0
+	for i < len(raw) && len(dec) < len(prefix) {
+		if raw[i] == '%' && i+2 < len(raw) {
+			if v, err := strconv.ParseUint(raw[i+1:i+3], 16, 8); err == nil {
+				dec = append(dec, byte(v))
+				i += 3
+				continue
+			}
+		}
+		dec = append(dec, raw[i])
+		i++
+	}
+	if len(dec) != len(prefix) || !strings.EqualFold(string(dec), prefix) {
+		return raw, false
+	}
+	return raw[i:], true
 }
 
 func joinSlash(a, b string) string {
